@@ -313,6 +313,33 @@ def gds_tables(repo):
     out.append("end L21.Gen")
     return "\n".join(out) + "\n", rep
 
+C20_FILES = ["layout21raw/src/gds.rs", "layout21raw/src/proto.rs", "layout21raw/src/lef.rs",
+             "layout21raw/src/data.rs", "layout21tetris/src/conv/raw.rs"]
+
+def hash_iter_sites(repo):
+    """Every place in the conversion code where a HashMap/HashSet is ITERATED (lookups are order-free).
+    A site is (file, enclosing fn, container name, how). Output order = source order."""
+    sites = []
+    for f in C20_FILES:
+        src = strip_comments(open(os.path.join(repo, f)).read())
+        # names declared with a hash type: struct fields, locals, parameters
+        names = set(re.findall(r"\b(\w+)\s*:\s*&?(?:'\w+\s+)?(?:mut\s+)?(?:std::collections::)?Hash(?:Map|Set)\s*<", src))
+        names |= set(re.findall(r"let\s+(?:mut\s+)?(\w+)\s*(?::[^=;]+)?=\s*(?:std::collections::)?Hash(?:Map|Set)::(?:new|with_capacity)", src))
+        # fields of other crates' types known to be hash maps and reachable here
+        names |= {"shapes", "blockages"}
+        fn = "?"
+        for line in src.splitlines():
+            m = re.search(r"\bfn\s+(\w+)", line)
+            if m:
+                fn = m.group(1)
+            for n in sorted(names):
+                for how, pat in (("for", r"\bin\s+&?(?:mut\s+)?(?:[\w\.\(\)\?]*\.)?" + n + r"\s*\{"),
+                                 ("iter", r"\b" + n + r"\s*\.\s*(?:iter|iter_mut|into_iter)\s*\(\)"),
+                                 ("values", r"\b" + n + r"\s*\.\s*(?:values|values_mut|keys|drain)\s*\(")):
+                    if re.search(pat, line):
+                        sites.append("%s:%s:%s:%s" % (f, fn, n, how))
+    return sites
+
 def main():
     repo, outdir = sys.argv[1], sys.argv[2]
     os.makedirs(outdir, exist_ok=True)
@@ -331,6 +358,18 @@ def main():
         report["fallback"].append("gds tables: unrecognised: " + str(e))
     except Exception as e:  # source layout changed beyond recognition
         report["fallback"].append("gds tables: translator error: %r" % (e,))
+    try:
+        sites = hash_iter_sites(repo)
+        text = ("-- GENERATED by /verif/tools/translate.py: hash-container iteration sites in the conversion code — do not edit.\n"
+                "namespace L21.Gen\n\n/-- (file:function:container:how) for every iteration over a HashMap/HashSet -/\n"
+                "def hashIterSites : List String := [\n  " + ",\n  ".join('"%s"' % x for x in sites) + "]\n\nend L21.Gen\n")
+        path = os.path.join(outdir, "HashSites.lean")
+        old = open(path).read() if os.path.exists(path) else None
+        if old != text:
+            open(path, "w").write(text)
+        report["constructs"]["hash_iter_sites"] = "extracted (%d sites)" % len(sites)
+    except Exception as e:
+        report["fallback"].append("hash sites: translator error: %r" % (e,))
     print(json.dumps(report))
     return 0
 
